@@ -612,8 +612,14 @@ fn run_factory(v: &str, x: &[u8], t: &[u8], _tr: Train) -> Outcome {
     // for these requirements and this payload
     if let Some(r) = v.strip_prefix("select_best(") {
         let req = requirements(r.trim_end_matches(')'));
+        let selected = format!("{:?}", CompressorFactory::select_best(&req, x));
         let rt = rt_boxed(x, || CompressorFactory::create(CompressorFactory::select_best(&req, x), Some(t)).map_err(es));
-        return outcome(x, "roundtrip", rt, |sym| join(&[v, sym, len_class(x.len()), alpha_class(x)]));
+        // the pass class names what the selector returned (vacuity check: more than one algorithm must occur)
+        return match outcome(x, "roundtrip", rt, |sym| join(&[v, sym, len_class(x.len()), alpha_class(x)])) {
+            Outcome::Pass { nontrivial, class } => Outcome::Pass { nontrivial, class: format!("{class}|selected={selected}") },
+            Outcome::Skip(why) => Outcome::skip(&format!("{why}|selected={selected}")),
+            o => o,
+        };
     }
     let rt = rt_boxed(x, || CompressorFactory::create(algorithm(v), Some(t)).map_err(es));
     outcome(x, "roundtrip", rt, |sym| class_for_algorithm(v, sym, x, t))
@@ -889,6 +895,21 @@ thread_local! {
 }
 
 fn pazip_proto(corp: &str, preset: &str) -> Result<PaZipCompressor, String> {
+    if corp == "big" {
+        // (coverage audit) the dictionary text is the whole 128 KiB corpus, built with the public
+        // SuffixArrayDictionary::new (0.15 s).  Built afresh for every case and never cloned: cloning a compressor with
+        // a 64 KiB dictionary takes 5 s, and PaZipDictionaryBuilder needs minutes for a corpus of this size (its pattern
+        // extraction hashes every substring of length 4..=256 at every position; with the 2 KiB / 4 KiB limits used for
+        // the other corpora it keeps only the first 32 bytes of the training data).
+        return match catch(|| -> Result<PaZipCompressor, String> {
+            let dict = SuffixArrayDictionary::new(&corpus(corp), SuffixArrayDictionaryConfig::default()).map_err(es)?;
+            let pool = SecureMemoryPool::new(SecurePoolConfig::new(4096, 1024, 8)).map_err(es)?;
+            PaZipCompressor::new(dict, pazip_config(preset), pool).map_err(es)
+        }) {
+            Ok(r) => r,
+            Err(p) => Err(format!("panic: {}", p.detail)),
+        };
+    }
     let key = format!("{corp}/{preset}");
     PAZIP.with(|m| {
         let mut m = m.borrow_mut();
@@ -902,15 +923,7 @@ fn pazip_proto(corp: &str, preset: &str) -> Result<PaZipCompressor, String> {
                     enable_progress: false,
                     ..Default::default()
                 };
-                // (coverage audit) "big": the dictionary text is the whole 128 KiB corpus, built with the public
-                // SuffixArrayDictionary::new (PaZipDictionaryBuilder needs minutes for a corpus of this size: its pattern
-                // extraction hashes every substring of length 4..=256 at every position; with the 2 KiB / 4 KiB limits used
-                // for the other corpora it keeps only the first 32 bytes of the training data)
-                let dict = if corp == "big" {
-                    SuffixArrayDictionary::new(&corpus(corp), SuffixArrayDictionaryConfig::default()).map_err(es)?
-                } else {
-                    PaZipDictionaryBuilder::with_config(cfg).build(&corpus(corp)).map_err(es)?
-                };
+                let dict = PaZipDictionaryBuilder::with_config(cfg).build(&corpus(corp)).map_err(es)?;
                 let pool = SecureMemoryPool::new(SecurePoolConfig::new(4096, 1024, 8)).map_err(es)?;
                 PaZipCompressor::new(dict, pazip_config(preset), pool).map_err(es)
             });
@@ -927,15 +940,26 @@ fn pazip_proto(corp: &str, preset: &str) -> Result<PaZipCompressor, String> {
 /// variant = "<preset>/<corpus>"
 fn run_pazip(v: &str, x: &[u8], _t: &[u8], _tr: Train) -> Outcome {
     let (preset, corp) = v.split_once('/').expect("variant");
-    let proto = match pazip_proto(corp, preset) {
-        Ok(p) => p,
+    // "<corpus>+reused": the same compressor object has already compressed another record (a compressor is a
+    // long-lived object: the encoding of record n must not depend on records 1..n-1)
+    let (corp, reused) = match corp.strip_suffix("+reused") {
+        Some(c) => (c, true),
+        None => (corp, false),
+    };
+    let mut proto = match pazip_proto(corp, preset) {
+        Ok(p) => Some(p),
         Err(_) => return Outcome::skip("construct_err"),
     };
     let used = RefCell::new(String::new());
     let rt = roundtrip(
         x,
         || {
-            let mut c = proto.clone();
+            // "big" protos are fresh objects already (see pazip_proto)
+            let mut c = if corp == "big" { proto.take().expect("fresh compressor") } else { proto.as_ref().expect("proto").clone() };
+            if reused {
+                let mut y0 = Vec::new();
+                c.compress(b"an earlier record: the quick brown fox 0123456789 0123456789", &mut y0).map_err(es)?;
+            }
             let mut y = Vec::new();
             let st = c.compress(x, &mut y).map_err(es)?;
             let mut u = Vec::new();
@@ -962,17 +986,16 @@ fn run_pazip(v: &str, x: &[u8], _t: &[u8], _tr: Train) -> Outcome {
     let reference = pazip_config(preset).use_reference_encoding;
     // (coverage audit) facts about a dictionary of more than 64 KiB that are visible from outside: where in the
     // dictionary the payload comes from and how long the longest possible global match is
+    // (coverage audit) facts about a payload cut from the 128 KiB dictionary that are visible from outside
     let big_fact = || -> String {
         let c = big_corpus();
         let probe = &x[..x.len().min(16)];
         let at = if probe.is_empty() { None } else { c.windows(probe.len()).position(|w| w == probe) };
-        // the part of the payload that lies in the dictionary beyond offset 65535 / the longest possible match
-        let end = at.map(|a| a + x.len());
         join(&[
-            match end {
+            match at {
                 None => "payload_not_in_dictionary",
-                Some(e) if e > 65536 => "dictionary_offset>=65536",
-                Some(_) => "dictionary_offset<65536",
+                Some(a) if a >= 65536 => "source_offset>=65536",
+                Some(_) => "source_offset<65536",
             },
             if x.len() >= 65536 { "payload>=64KiB" } else { "payload<64KiB" },
         ])
@@ -982,6 +1005,8 @@ fn run_pazip(v: &str, x: &[u8], _t: &[u8], _tr: Train) -> Outcome {
             "use_reference_encoding".to_string()
         } else if corp == "big" {
             join(&["dictionary>64KiB", sym_kind(sym), &big_fact()])
+        } else if reused {
+            join(&[preset, sym, "second_record_of_a_reused_compressor"])
         } else {
             join(&[preset, sym, len_class(x.len()), alpha_class(x)])
         }
@@ -1009,6 +1034,12 @@ fn pz_fse_config(name: &str) -> PzFseConfig {
 fn run_fse_layer(v: &str, x: &[u8], t: &[u8], _tr: Train) -> Outcome {
     let branch = std::cell::RefCell::new(String::new());
     let rt = if v == "fse_zip_reference" {
+        // Ok(false) = "not beneficial, the caller keeps the raw record": nothing was produced, nothing to invert
+        let mut probe = vec![0u8; x.len() + 64];
+        let mut used = 0usize;
+        if let Ok(Ok(false)) = catch(|| fse_zip_reference(x, &mut probe, &mut used)) {
+            return Outcome::skip("declined_not_beneficial");
+        }
         roundtrip(
             x,
             || {
@@ -1343,8 +1374,9 @@ fn main() {
         reg.add(Enum(Family {
             name: "Compressors/other-object",
             variants: sv(&["Huffman", "Rans", "Zstd(3)", "SimdLz77", "None"]),
-            trains: vec![Train::Same, Train::Uniform, Train::English],
-            space: gen.clone(),
+            trains: if q { vec![Train::Same, Train::English] } else { vec![Train::Same, Train::Uniform, Train::English] },
+            // quick: without the 64 KiB lengths (the Huffman bit vectors make them the slowest cases of the grid)
+            space: if q { def(4, &[N_SMALL], K_GEN, SHAPES_ALL) } else { gen.clone() },
             run: run_other_object,
         }));
         reg.add(Enum(Family {
@@ -1410,6 +1442,13 @@ fn main() {
             }
         }
         reg.add(Enum(Family { name: "PaZipCompressor", variants: pz, trains: same.clone(), space: pazip.clone(), run: run_pazip }));
+        // one compressor object, two records: the second record's encoding must stand on its own
+        let mut pzr = Vec::new();
+        // (reference_compliant is left out: its output cannot be decompressed at all — recorded finding of the PaZipCompressor subject)
+        for p in ["default", "fast_compression", "high_compression", "realtime"] {
+            pzr.push(format!("{p}/{}+reused", CORPORA[0]));
+        }
+        reg.add(Enum(Family { name: "PaZipCompressor/reused-object", variants: pzr, trains: same.clone(), space: pazip.clone(), run: run_pazip }));
         // (coverage audit) a dictionary of more than 64 KiB; payloads cut from its head and from beyond offset 65536
         const N_BIG: &[usize] = &[1, 5, 6, 7, 15, 16, 17, 100, 255, 256, 257, 1025, 4097];
         const N_BIG_T: &[usize] = &[65535, 65536, 65537, 70000];
@@ -1418,15 +1457,13 @@ fn main() {
         } else {
             def(0, &[N_BIG, N_BIG_T], &[256], &[Sh::BigHead, Sh::BigTail, Sh::English, Sh::Noise])
         };
-        if std::env::var("ZV_AUDIT_BIG").is_ok() {
         reg.add(Enum(Family {
             name: "PaZipCompressor/big-dictionary",
-            variants: if q { sv(&["default/big", "realtime/big"]) } else { sv(&["default/big", "realtime/big", "high_compression/big", "fast_compression/big"]) },
+            variants: if q { sv(&["default/big"]) } else { sv(&["default/big", "realtime/big", "high_compression/big", "fast_compression/big"]) },
             trains: same.clone(),
             space: big_space,
             run: run_pazip,
         }));
-        }
         reg.add(Enum(Family {
             name: "dict_zip::FseLayer",
             variants: sv(&[
